@@ -14,6 +14,21 @@ def parseEv (kind : String) (s : String) : Option Ev :=
   | ["z"] => some .cancel
   | _ => none
 
+/-- the bulk event `W:<c>:<count>:<len>`: `count` writes of one `len`-byte line each -/
+def bulkLine (c : String) (i len : Nat) : Bytes :=
+  let num := toString i
+  let head := s!"c{c}-{"".pushn '0' (6 - num.length)}{num} ".toUTF8.toList
+  let rec pad (l : Bytes) (fuel : Nat) : Bytes :=
+    match fuel with
+    | 0 => l
+    | fuel+1 => if l.length < len - 1 then pad (l ++ [(97 + (i + l.length) % 26).toUInt8]) fuel else l
+  pad head len ++ [10]
+
+def expand (s : String) : List String :=
+  match s.splitOn ":" with
+  | ["W", c, n, len] => (List.range n.toNat!).map (fun i => s!"w:{c}:{Hex.encode (bulkLine c i len.toNat!)}")
+  | _ => [s]
+
 def handle (f : List String) : String :=
   match f with
   | ["sock", kind, evS] =>
@@ -22,7 +37,7 @@ def handle (f : List String) : String :=
     let single := kind = "fifo" ∨ kind = "unixgram"
     let cfg : Cfg := ⟨kind = "fifo", if single then true else Generated.Conn.closerWaitsForCancelToo⟩
     let s0 : S := if kind = "unixgram" then step cfg {} (.accept 0) else {}
-    let evs := (evS.splitOn ";").filterMap (parseEv kind)
+    let evs := ((evS.splitOn ";").flatMap expand).filterMap (parseEv kind)
     let s := evs.foldl (fun s ev =>
       if s.cancelled ∨ (kind = "fifo" ∧ s.linesClosed) then s
       else match ev with
